@@ -27,6 +27,7 @@ class FakeBucketStore(object):
         self.clock = lambda: datetime.datetime.utcnow()
         self.crash_after = None   # crash after this many further mutations
         self.reject_full = 0      # refuse this many further puts of a `full/` object
+        self.reject_put_no = 0    # refuse the n-th put from now on (an error answer, not a crash: the caller's handlers run)
 
     def now(self):
         return pytz.utc.localize(self.clock())
@@ -68,6 +69,10 @@ class FakeClient(object):
         if st.reject_full and 'full/' in Key:
             st.reject_full -= 1
             raise Rejected(Key)
+        if st.reject_put_no:
+            st.reject_put_no -= 1
+            if st.reject_put_no == 0:
+                raise Rejected(Key)
         if isinstance(Body, str):
             Body = Body.encode('utf-8')
         st.objects[Key] = (Body, st.now(), kwargs.get('StorageClass', 'STANDARD'))
